@@ -29,7 +29,7 @@ class Bind:
             return bool(v["linit"]) if path == "legacy" else bool(v["init"])
         if op == "payload":
             return bool(v["payload"])
-        kind = "get" if op in ("get", "nullget", "badget", "nullout") else "set"
+        kind = "get" if op in ("get", "nullget", "badget", "nullout", "getalias") else "set"
         if path == "generic": return bool(v["g" + kind])
         if path == "legacy": return bool(v["l" + kind])
         if path == "dedicated":
@@ -116,12 +116,15 @@ def placements_for(vec, tier, rnd):
     """Placements to run a vector on: exact arenas against an inaccessible page (and read-only for
     non-writing ops), slack arenas at a varying address offset."""
     exact = vec["base"] == 0
-    writes = vec["op"] in ("set", "init")
+    writes = vec["op"] in ("set", "init", "getalias")
     pl = []
     if exact:
         pl.append(("E", 0))
         if not writes: pl.append(("R", 0))
         pl.append(("S", 0))
+        # at, across and up to an address that is a multiple of 2^32
+        L = len(vec["pre"])
+        for off in sorted(set((0, 4, L - 4 if L > 4 else L, L))): pl.append(("G", off))
     else:
         pl.append(("S", rnd.randrange(16)))
         pl.append(("E", 0))
